@@ -12,6 +12,37 @@ def check(ctx):
     from rules.generic import anchor_files
     nq = rows.r13_bounded_queues(ctx, set(anchor_files('C06')))
     run.floor('R13q', nq, 8, 'modules of row-wise steps')
+    # the constants themselves: "bounded by a constant" is stated for data of 10^2 .. 10^5 rows - a sample size or a write batch of
+    # the order of the data is no bound.  The three constants that bound look-ahead are integer literals of at most 10^4.
+    import ast as _a6
+    from sa.model import u as _u6, where as _w6
+    run.rule('LAC', 'LOOK-AHEAD-CONSTANTS: the sample size of in-memory sources, the default sample size handed to the tabular reader and '
+                    'the default write batch of dump_to_sql are integer literals <= 10**4 (small against the data sizes the property is '
+                    'stated for)')
+    found = {}
+    il = ctx.repo.modules['dataflows.helpers.iterable_loader']
+    for n_ in _a6.walk(il.tree):
+        if isinstance(n_, _a6.Assign) and len(n_.targets) == 1 and _u6(n_.targets[0]) == 'SAMPLE_SIZE':
+            found['iterable_loader.SAMPLE_SIZE'] = n_.value
+    ldm = ctx.repo.modules['dataflows.processors.load']
+    for n_ in _a6.walk(ldm.tree):
+        if isinstance(n_, _a6.Call) and isinstance(n_.func, _a6.Attribute) and n_.func.attr == 'setdefault' and len(n_.args) == 2 and \
+                isinstance(n_.args[0], _a6.Constant) and n_.args[0].value == 'sample_size':
+            found['load sample_size default'] = n_.args[1]
+    sqm = ctx.repo.modules['dataflows.processors.dumpers.to_sql']
+    for n_ in _a6.walk(sqm.tree):
+        if isinstance(n_, _a6.Call) and isinstance(n_.func, _a6.Attribute) and n_.func.attr == 'get' and len(n_.args) == 2 and \
+                isinstance(n_.args[0], _a6.Constant) and n_.args[0].value == 'batch_size':
+            found['dump_to_sql batch_size default'] = n_.args[1]
+    if len(found) != 3:
+        from sa.loader import AnalysisError
+        raise AnalysisError('look-ahead constants not found: %s' % sorted(found))
+    for k_, v_ in sorted(found.items()):
+        okc = isinstance(v_, _a6.Constant) and isinstance(v_.value, int) and not isinstance(v_.value, bool) and 1 <= v_.value <= 10 ** 4
+        run.check(okc, 'LAC', _w6(ctx.repo, v_), k_, '%s = %s' % (k_, _u6(v_)),
+                  'the constant that bounds how far rows are read ahead (%s = %s) is not a small integer literal: with the default '
+                  'options the whole stream is pulled before the first row is delivered for every data size the property is stated for'
+                  % (k_, _u6(v_)))
     for m, why in sorted(rows.OUT_OF_SCOPE_MODULES.items()):
         run.note('out of scope: %s (%s)' % (m, why))
     run.trusted += ['itertools.chain/islice/zip_longest, zip, enumerate, iter, map, filter are lazy',
